@@ -270,14 +270,17 @@ pub fn diagnose_store(
     let newcomer_may_go = succ.iter().any(|s| !s.e.contains_key(&k));
     match after.get(&k) {
         None if !newcomer_may_go => {
-            let mut owners = vec!["C03"];
-            if p.limit.is_some() {
-                // "the cache holds min(N, number of distinct keys stored) entries"
-                owners.push("C04");
-            }
+            let mut owners = vec![];
             if p.max_memory.is_some() {
-                // only a value that alone exceeds M is refused
+                // with a memory limit the only legitimate reason to refuse a value is its size:
+                // a refusal of a value that fits is a memory-limit decision
                 owners.push("C05");
+            } else {
+                owners.push("C03");
+                if p.limit.is_some() {
+                    // "the cache holds min(N, number of distinct keys stored) entries"
+                    owners.push("C04");
+                }
             }
             owners.extend_from_slice(ctx);
             return Clause::new(
@@ -303,8 +306,15 @@ pub fn diagnose_store(
         .max_memory
         .map_or(false, |mm| m.total_fp() - m.e.get(&k).map_or(0, |e| e.fp) + fp > mm);
     if max_removed == 0 && !removed.is_empty() {
+        // who can be blamed for an eviction nobody needed: the entry-limit test when the cache is
+        // at its limit or when bookkeeping leftovers (expiry, invalidation) may inflate the count;
+        // the memory accounting whenever a memory limit is configured
+        let mut universe = before.clone();
+        universe.insert(k);
+        let near_limit = p.limit.map_or(false, |n| universe.len() + 1 >= n);
+        let leftovers = m.gone.values().any(|g| matches!(g, Gone::Expired | Gone::Invalidated));
         let mut owners = vec![];
-        if p.limit.is_some() {
+        if p.limit.is_some() && (p.max_memory.is_none() || near_limit || leftovers) {
             owners.push("C04");
         }
         if p.max_memory.is_some() {
@@ -313,7 +323,7 @@ pub fn diagnose_store(
         if owners.is_empty() {
             owners.push("C03");
         }
-        if m.gone.values().any(|g| *g == Gone::Expired) {
+        if m.gone.values().any(|g| *g == Gone::Expired) && (p.max_memory.is_none() || near_limit) {
             // an expired entry that was purged must no longer occupy capacity
             owners.push("C06");
         }
